@@ -1,27 +1,155 @@
-"""property id -> obligation groups per tier, claimed level, notes."""
+"""property id -> obligation groups per tier, claimed level, notes.
+Strength of every group (P inductive / L lemma / B(k) bounded) is recorded in the group itself and reported
+separately in evidence; `level` is 'proof' only where every registered group is P or L."""
+
+KPY = ['gmd_py.P', 'dist_at_t_py.P']
+KPYX = ['gmd_prof_pyx.P', 'dist_at_t_prof_pyx.P']
+
+
+def both(quick, extra_thorough=()):
+    return dict(quick=list(quick), thorough=list(quick) + list(extra_thorough))
+
 
 PROPS = {
     'C01': dict(
-        title='ISI-profile equals the ISI-distance definition',
-        level='proof',
-        groups=dict(quick=['isi_py.P', 'isi_pyx.P'], thorough=['isi_py.P', 'isi_pyx.P', 'isi_py.B']),
-        explanation='inductive proof (loop invariant with ghost cover indices) of the ISI kernel against the C01 definition, '
-                    'Python fallback and extracted Cython text',
+        title='ISI-profile equals the ISI-distance definition', level='proof',
+        groups=both(['isi_py.P', 'isi_pyx.P', 'lemmas.cover', 'nonempty.B'], ['isi_py.B']),
+        technique='inductive VCs (loop invariant + ghost cover indices) generated from the Python AST of the real kernel, discharged by z3/cvc5',
+        explanation='inductive proof of isi_distance_python and of the extracted isi_profile_cython against the C01 definition '
+                    '(breakpoints = edges + interior spikes, value = |v1-v2|/max(v1,v2,MRTS) of the covering ISIs with the edge rules, '
+                    'all returned cells finite); lemma: covering intervals => no spike strictly inside a segment; '
+                    'get_spikes_non_empty (empty train -> one interval over the recording) is checked loop-free',
     ),
     'C02': dict(
-        title='SPIKE-profile equals the SPIKE-distance definition',
-        level='other',
-        groups=dict(quick=['gmd_py.P', 'gmd_prof_pyx.P', 'dist_at_t_py.P', 'dist_at_t_prof_pyx.P', 'spike_py.B', 'spike_pyx.B'],
-                    thorough=['gmd_py.P', 'gmd_prof_pyx.P', 'dist_at_t_py.P', 'dist_at_t_prof_pyx.P', 'spike_py.B', 'spike_pyx.B']),
-        explanation='helpers get_min_dist / dist_at_t proved inductively (P); the SPIKE scan itself is checked in bounded mode against '
-                    'the C02 definition with the helpers replaced by their contracts',
+        title='SPIKE-profile equals the SPIKE-distance definition', level='other',
+        groups=both(KPY + KPYX + ['spike_py.B', 'spike_pyx.B']),
+        technique='contracts on get_min_dist / dist_at_t proved inductively; SPIKE scan: bounded symbolic execution of the real text against the definition',
+        explanation='get_min_dist (loop with early return) and dist_at_t are proved for all inputs; the SPIKE merge scan is executed '
+                    'symbolically with those callees replaced by their contracts, complete over all real spike times for the stated train sizes',
+    ),
+    'C03': dict(
+        title='SPIKE-Sync profile marks exactly the mutually coincident spikes', level='other',
+        groups=both(['get_tau_py.P', 'get_tau_pyx.P', 'sync_py.B', 'sync_pyx.B', 'single_py.B', 'single_pyx.B', 'syncval_pyx.B', 'lemmas.window']),
+        technique='window routine proved (loop-free, all inputs); scan kernels: bounded symbolic execution against the pairwise definition',
+        explanation='get_tau proved equal to the window of the statement for all trains and indices; profile / per-spike indicator kernels '
+                    'checked against the pairwise coincidence definition incl. mutual one-to-one counting, for all real inputs of the stated sizes',
+    ),
+    'C04': dict(
+        title='Order / directionality sign convention', level='other',
+        groups=both(['order_py.B', 'order_pyx.B', 'dir_py.B', 'dir_pyx.B', 'orderval_pyx.B', 'dirval_pyx.B', 'plumb.forms', 'plumb.degenerate']),
+        technique='bounded symbolic execution of the scan kernels against the pairwise leader/follower definition; wrappers executed on formal terms',
+        explanation='kernels vs pairwise definition (sign, zero for simultaneous / non-coincident, swap negates); values / matrix / synfire '
+                    'plumbing (1/(N-1) normalisation, antisymmetric matrix, pooled ratio) on formal terms for every index selection',
+    ),
+    'C05': dict(
+        title='Scalar = average of the profile', level='other',
+        groups=both(['plumb.profile_avg', 'isidist_pyx.B', 'spikedist_pyx.B', 'syncval_pyx.B', 'orderval_pyx.B',
+                     'pwc_avrg.B', 'pwl_avrg.B', 'disc_avrg.B']),
+        technique='wrappers executed on formal terms (scalar route vs averaged profile route); compiled single-pass routines: bounded self-composition with the profile kernels',
+        explanation='for every entry point, call form, keyword class, emptiness pattern and interval the scalar route and the average of the '
+                    'profile route reduce to the same normal form; compiled single-pass distances equal the average of the profile kernel; '
+                    'avrg of each class is integral/length (C10/C11 contracts)',
+    ),
+    'C06': dict(
+        title='Multivariate = all-pairs aggregate, order independent', level='other',
+        groups=both(['plumb.forms', 'addpwc_py.P', 'addpwc_pyx.P', 'addpwl_py.B', 'addpwl_pyx.B', 'adddisc_py.B', 'adddisc_pyx.B', 'lemmas.symmetry']),
+        technique='wrappers executed on formal terms with symmetric kernel atoms; add kernels under contract',
+        explanation='recursive pair halving, pair enumeration from indices, 1/M scaling, pooled sums and matrix filling are compared with the '
+                    'all-pairs normal form for every ordered index subset (hence every permutation); profile addition is pointwise (C09 contracts)',
+    ),
+    'C07': dict(
+        title='Range, symmetry, identity', level='other',
+        groups=both(['lemmas.range', 'lemmas.symmetry', 'rel_isi.B', 'rel_spike.B', 'rel_sync.B', 'plumb.degenerate']),
+        technique='lemmas over the spec functions of the kernel contracts + bounded relational (two-run) symbolic execution of the real kernels',
+        explanation='ratio in [0,1], window lemmas (L); swap symmetry and identity of the kernels by two-run symbolic execution (bounded); '
+                    'SPIKE range [0,1] searched in the same bound (undecided nonlinear queries are reported, not counted)',
+    ),
+    'C08': dict(
+        title='Shift / scale invariance, time-reversal mirror', level='other',
+        groups=both(['mirror_isi.B', 'mirror_spike.B', 'mirror_sync.B', 'mirror_order.B', 'affine_isi.B', 'affine_spike.B', 'affine_sync.B']),
+        technique='bounded relational (two-run) symbolic execution of the real kernels on transformed inputs',
+        explanation='each kernel is executed symbolically on (s1,s2) and on the transformed trains; outputs are related as the statement says',
+    ),
+    'C09': dict(
+        title='Adding piecewise profiles is pointwise addition', level='other',
+        groups=both(['addpwc_py.P', 'addpwc_pyx.P', 'addpwc_py.B', 'addpwl_py.B', 'addpwl_pyx.B', 'methods.B']),
+        technique='inductive VCs for the piecewise-constant merge (py + pyx); bounded symbolic execution for the linear merge and the class methods',
+        explanation='add_piece_wise_const proved for all inputs (incl. vectorised tail copies / Cython tail loops); linear merge and the '
+                    'add / mul_scalar / copy methods bounded; frame obligations show the operand is not modified',
+    ),
+    'C10': dict(
+        title='Integral, average and evaluation are exact', level='other',
+        groups=both(['pwc_integral.B', 'pwc_avrg.B', 'pwc_call.B', 'pwc_plot.B', 'pwl_integral.B', 'pwl_avrg.B', 'pwl_call.B', 'pwl_plot.B']),
+        technique='bounded symbolic execution of the real methods (searchsorted as assumed contract) against the Riemann-sum definition',
+        explanation='integral vs sum over pieces of value * overlap, every position of a,b (symbolic); avrg against the contract of integral; '
+                    'scalar __call__ and plottable arrays; sequence path of __call__ not covered',
+    ),
+    'C11': dict(
+        title='Discrete profiles add by event and integrate over open intervals', level='other',
+        groups=both(['adddisc_py.B', 'adddisc_pyx.B', 'disc_integral.B', 'disc_avrg.B', 'disc_plot.B']),
+        technique='bounded symbolic execution of the real kernel / methods against the event-wise definition',
+        explanation='merge of events with summed values / multiplicities, open-interval selection, ratio with empty convention, k=0 plottable '
+                    'data; smoothing window k>0 not covered',
+    ),
+    'C12': dict(
+        title='Compiled and fallback backends agree', level='other',
+        groups=both(['isi_py.P', 'isi_pyx.P', 'gmd_py.P', 'gmd_prof_pyx.P', 'gmd_dist_pyx.P', 'dist_at_t_py.P', 'dist_at_t_prof_pyx.P', 'dist_at_t_dist_pyx.P',
+                     'get_tau_py.P', 'get_tau_pyx.P', 'addpwc_py.P', 'addpwc_pyx.P', 'spike_py.B', 'spike_pyx.B', 'sync_py.B', 'sync_pyx.B',
+                     'single_py.B', 'single_pyx.B', 'order_py.B', 'order_pyx.B', 'dir_py.B', 'dir_pyx.B', 'addpwl_py.B', 'addpwl_pyx.B',
+                     'adddisc_py.B', 'adddisc_pyx.B', 'isidist_pyx.B', 'spikedist_pyx.B', 'syncval_pyx.B', 'orderval_pyx.B', 'dirval_pyx.B']),
+        technique='both members of every routine pair verified against the same functional contract (P where proved, B otherwise); .pyx as mechanically extracted text',
+        explanation='each pair shares one postcondition that determines the result, so agreement follows; single-pass distances against the '
+                    'average of the profile kernel. The real C extension cannot be built here (no Cython): C semantics are an assumption',
+    ),
+    'C13': dict(
+        title='Inputs normalised, never modified', level='other',
+        groups=both(['plumb.reconcile', 'reconcile.B', 'plumb.degenerate']),
+        technique='reconcile under contract (bounded); wrappers executed on formal terms with disordered input; frame obligations',
+        explanation='reconcile_spike_trains against its contract (common edges, strictly increasing distinct spikes, idempotent); every '
+                    'entry point on rotated / duplicated spike times reaches the kernels with the normalised trains in both configurations; '
+                    'inputs compared before / after each call; kernel frame obligations forbid stores into arguments',
+    ),
+    'C14': dict(
+        title='All call forms and index selections agree', level='other',
+        groups=both(['plumb.forms']),
+        technique='real wrappers executed on formal terms; exhaustive over call forms and ordered index subsets for N <= bound',
+        explanation='two-argument, list, var-args and indices forms of every measure reduce to the same normal form with the same '
+                    'interval / max_tau / MRTS / RI, in both configurations',
+    ),
+    'C15': dict(
+        title="MRTS only de-emphasises small time scales; 'auto' = pooled ISI threshold", level='other',
+        groups=both(['lemmas.mrts', 'plumb.auto', 'thresh.B', 'mrts_isi.B', 'mrts_spike.B', 'mrts_sync.B']),
+        technique='scalar lemmas over the spec functions + bounded two-run symbolic execution + wrappers on formal terms',
+        explanation='MRTS=0 reduces the specs to the non-adaptive ones, ratio / D non-increasing and window non-decreasing in MRTS (L); '
+                    "kernels re-run with two thresholds (bounded); 'auto' is replaced by the pooled threshold of the call's trains on every entry point; "
+                    'default_thresh = RMS of pooled ISI lengths (bounded)',
     ),
     'C16': dict(
-        title='max_tau is an upper bound on the coincidence window',
-        level='other',
-        groups=dict(quick=['get_tau_py.P', 'get_tau_pyx.P', 'sync_py.B', 'order_py.B', 'dir_py.B', 'single_py.B'],
-                    thorough=['get_tau_py.P', 'get_tau_pyx.P', 'sync_py.B', 'order_py.B', 'dir_py.B', 'single_py.B']),
-        explanation='window routine proved (P, loop-free) to return the C03 window and never more than half the limit it is given; '
-                    'scan kernels bounded',
+        title='max_tau is an upper bound on the coincidence window', level='other',
+        groups=both(['get_tau_py.P', 'get_tau_pyx.P', 'lemmas.window', 'sync_py.B', 'order_py.B', 'dir_py.B', 'single_py.B', 'sync_pyx.B']),
+        technique='window routine proved for all inputs (loop-free VCs); scan kernels bounded',
+        explanation='get_tau returns the C03 window capped at half the limit it is given (= max_tau); monotone in the limit (L); '
+                    'coincident pairs closer than max_tau in every scan kernel (bounded)',
+    ),
+    'C17': dict(
+        title='The SPIKE-Sync filter keeps exactly the spikes above threshold', level='other',
+        groups=both(['plumb.filter', 'single_py.B', 'single_pyx.B']),
+        technique='real filter executed on every 0/1 outcome of the indicator kernel (bounded); indicator kernel under contract',
+        explanation='keep iff count > threshold*(N-1), removed iff <=, partition in order on the original interval, inputs unchanged, one '
+                    'indicator call per ordered pair with the given max_tau / MRTS; the indicator agrees with the pairwise definition (C03)',
+    ),
+    'C18': dict(
+        title='Every valid input yields a finite, well-formed result without error', level='other',
+        groups=both(['plumb.degenerate', 'isi_py.P', 'isi_pyx.P', 'spike_py.B', 'spike_pyx.B', 'sync_py.B', 'order_py.B', 'dir_py.B',
+                     'isidist_pyx.B', 'spikedist_pyx.B']),
+        technique='safety obligations (index bounds, asserts, finiteness flags, no exception) of all kernels + wrappers on formal terms over all emptiness patterns',
+        explanation='kernel safety and well-formedness clauses incl. one-spike, edge and identical trains; public functions on every pattern of '
+                    'empty trains: no exception, no zero-denominator ratio',
+    ),
+    'C20': dict(
+        title='Merging and histogramming conserve every spike', level='other',
+        groups=both(['merge.B']),
+        technique='bounded symbolic execution over assumed numpy contracts (concatenate, sort, linspace, histogram)',
+        explanation='merge_spike_trains = sorted multiset union on the first interval; psth counts; rests on assumed library contracts',
     ),
 }
